@@ -283,8 +283,16 @@ func LoadOfField(v ssa.Value) (FieldRef, bool) {
 	if f, ok := v.(*ssa.Field); ok {
 		return AsField(f)
 	}
+	// a parameter of an unexported function that every call site fills with the load of one and the same field
+	// (a method turned into a function that takes the fields it used) stands for that field
+	if p, ok := v.(*ssa.Parameter); ok && ParamField != nil {
+		return ParamField(p)
+	}
 	return FieldRef{}, false
 }
+
+// ParamField, when set by the loader, resolves a parameter to the field whose load every call site passes for it.
+var ParamField func(p *ssa.Parameter) (FieldRef, bool)
 
 // ConstInt returns the integer value of a constant SSA value.
 func ConstInt(v ssa.Value) (int64, bool) {
